@@ -153,6 +153,8 @@ namespace smt
                 return FALSE_lit;
             if (!new_clause({ctr, !left, !right}))
                 return FALSE_lit;
+            if (!new_clause({ctr, left, right}))
+                return FALSE_lit;
             exprs.emplace(s_expr, ctr);
             return ctr;
         }
